@@ -52,6 +52,8 @@ ERR, ANY, BOOL = B("error"), B("any"), B("bool")
 SRC_KIND, DEST_KIND = NM("src", "Kind", INT), NM("dest", "Kind", INT)
 SRC_LABEL, DEST_TEXT, DEST_CODE = NM("src", "Label", STR), NM("dest", "Text", STR), NM("dest", "Code", I32)
 SRC_SUB, DEST_SUB = NM("src", "Sub", ("st", "N:int")), NM("dest", "Sub", ("st", "N:int,Other:string"))
+# a nested pair with IDENTICAL layouts (mutually convertible as Go types): only the tags differ - `Hid` is left out
+SRC_TWIN, DEST_TWIN = NM("src", "Twin", ("st", "V:int,Hid:string")), NM("dest", "Twin", ("st", "V:int,Hid:string"))
 SRC_ITEM = NM("src", "Item", ("st", "V:string,Sub:*Sub,Subs:[]*Sub"))
 DEST_ITEM = NM("dest", "Item", ("st", "V:string,Sub:*Sub,Subs:[]Sub"))
 DEST_DEC = NM("dest", "Dec", ("st", "V:int"))
@@ -63,6 +65,10 @@ SRC_TYPES_GO = """package src
 type Kind int
 type Label string
 type Sub struct{ N int }
+type Twin struct {
+	V   int
+	Hid string `map:"-"` // same layout as dest.Twin: converting instead of mapping would copy it (and alias a pointer)
+}
 type Item struct {
 	V    string
 	Sub  *Sub   // nil-ness below a mapped sub-struct: the oracle varies these (never the first field)
@@ -84,6 +90,10 @@ type Item struct {
 	Subs []Sub
 }
 type Dec struct{ V int }
+type Twin struct {
+	V   int
+	Hid string
+}
 """
 
 INTS = {"int", "int8", "int16", "int32", "int64", "uint", "uint8", "uint16", "uint32", "uint64"}
@@ -408,7 +418,7 @@ def render_src(spec, modpath, pkgname="src"):
         for k, (n, a, b) in enumerate(comp["pairs"]):
             pt, rt = go_type(a, "src"), go_type(b, "src")
             body.append("func (CMapper) Cn%d(x %s) %s { return vo.MapFn[%s, %s](x, 4) }\n" % (k, pt, rt, pt, rt))
-        body.append("type Comp struct {\n\tCMapper\n" + "".join("\tX%d %s\n" % (k, go_type(a, "src")) for k, (n, a, b) in enumerate(comp["pairs"])) + "}\n")
+        body.append("type %s struct {\n\tCMapper\n" % comp.get("name", "Comp") + "".join("\tX%d %s\n" % (k, go_type(a, "src")) for k, (n, a, b) in enumerate(comp["pairs"])) + "}\n")
     top = dict(s)
     if mp:
         top = dict(s, members=[{"k": "e", "decl": {"name": mp["name"], "members": [], "kind": "plain"}, "ptr": mp["ptr"]}] + s["members"])
@@ -441,7 +451,7 @@ def render_dest(spec):
     body = ["package dest", ""]
     comp = spec.get("companion")
     if comp:
-        body.append("type Comp struct {\n" + "".join("\tX%d %s\n" % (k, go_type(b, "dest")) for k, (n, a, b) in enumerate(comp["pairs"])) + "}\n")
+        body.append("type %s struct {\n" % comp.get("name", "Comp") + "".join("\tX%d %s\n" % (k, go_type(b, "dest")) for k, (n, a, b) in enumerate(comp["pairs"])) + "}\n")
     body += [render_struct(d, "dest"), ""]
     for e in embed_decls(d):
         body.append(render_struct(e, "dest"))
@@ -504,6 +514,8 @@ def make_case(cid, spec, masks=None, fmasks=None, roundtrip=False, prop="C05"):
     spec["first_map_run"] = len(runs)
     # the helper struct types get their own mappers (same flags, so that the method names agree)
     helper = dict(spec, flags=dict(spec["flags"], i=False, way="both"))
+    if uses_type(spec, SRC_TWIN):
+        runs.append({"args": map_args(helper, "Twin"), "cwd": "src"})
     need_item = uses_type(spec, SRC_ITEM)
     if need_item or uses_type(spec, SRC_SUB):          # Item's mapper calls Sub's
         runs.append({"args": map_args(helper, "Sub"), "cwd": "src"})
@@ -516,9 +528,11 @@ def make_case(cid, spec, masks=None, fmasks=None, roundtrip=False, prop="C05"):
         if comp.get("mode") == "file":
             top_args.append("-file=s.go")
         else:
-            if spec["sname"] != spec["dname"]:
-                top_args.append("-to=Comp," + spec["dname"])
-            top_args.append("-type=Comp," + spec["sname"])
+            cn = comp.get("name", "Comp")
+            # -to pairs the lists position by position: always given when the companion's name makes the -type list unsorted
+            if spec["sname"] != spec["dname"] or comp.get("to"):
+                top_args.append("-to=%s,%s" % (cn, spec["dname"]))
+            top_args.append("-type=%s,%s" % (cn, spec["sname"]))
     runs.append({"args": top_args, "cwd": "src"})
     to, frm = method_names(spec)
     oracle = ORACLE_TMPL % {"pkg": pkg, "mod": mod, "s": spec["sname"], "d": spec["dname"], "to": to, "from": frm,
@@ -617,6 +631,7 @@ FUNCABLE = [(INT, STR), (STR, DEST_DEC), (INT, I64), (INT, INT), (STR, INT), (F6
             (SRC_KIND, DEST_DEC), (SRC_SUB, DEST_SUB), (I64, DEST_TEXT), (SL(INT), STR)]
 FUNCONLY = [(STR, DEST_DEC), (STR, INT), (F64, STR), (I32, STR), (SL(INT), STR), (STR, F64)]   # no conversion exists
 SUBS = [(SRC_SUB, DEST_SUB), (SRC_ITEM, DEST_ITEM)]
+TWINS = [(SRC_TWIN, DEST_TWIN)]
 NAMEDSCALAR = [(SRC_KIND, DEST_KIND), (SRC_LABEL, DEST_TEXT), (SRC_KIND, DEST_CODE), (P(SRC_KIND), P(DEST_KIND)),
                (SL(SRC_KIND), SL(DEST_KIND))]
 PTRCONV = [(P(INT), P(DEST_KIND)), (P(SRC_LABEL), P(STR))]
@@ -647,11 +662,16 @@ class MapGen:
         elif kind == "funconly":
             a, b = self.pick(FUNCONLY)
         elif kind == "sub":
-            a, b = self.pick(SUBS)
-            if r.random() < 0.5:
-                a = P(a)
-            if r.random() < 0.5:
-                b = P(b)
+            a, b = self.pick(SUBS + (TWINS * 2 if getattr(self, "twins", False) else []))
+            if (a, b) in TWINS and r.random() < 0.7:
+                # value<->value / pointer<->pointer: the two types are mutually convertible (seeded change C05-12 converts then)
+                if r.random() < 0.5:
+                    a, b = P(a), P(b)
+            else:
+                if r.random() < 0.5:
+                    a = P(a)
+                if r.random() < 0.5:
+                    b = P(b)
         elif kind == "each":
             a, b = self.pick(SUBS)
             a = SL(P(a) if r.random() < 0.5 else a)
@@ -669,6 +689,7 @@ class MapGen:
         kinds: weighted list of concept kinds; names: weighted list of naming kinds; n: (lo, hi) concepts;
         embeds, ptr_embed, shadow, multi, mapper_ptr, unexported, extra, flags (dict override)"""
         r = self.rng
+        self.twins = r.random() < o.get("twins", 0.0)
         kinds = o.get("kinds") or (["same"] * 5 + ["conv"] * 3 + ["func"] * 3 + ["sub"] * 2 + ["each"] * 2 + ["none"] * 2 +
                                    ["misconv", "oneway"])
         names = o.get("names") or (["ident"] * 12 + ["acronym"] * 4 + ["caseonly"] * 2 + ["tag"] * 3 + ["skip"] * 2 + ["tagsnake"])
@@ -1157,6 +1178,23 @@ def shadow_chain(side, order, ptr=(True, True), other_flat=True):
     return mk_spec(flat, chain, sname="Record")
 
 
+def shadow_triple(side, order, shallow_ptr=True, mid_ptr=False):
+    """one name at THREE depths, declared in the given order of depths (a permutation of 1, 2, 3), the shallowest behind a pointer
+    embed: Archive{ Lvl{ Pit{ ID } } } (depth 3), [*]Meta{ ID } (depth 1), Audit{ [*]Inner{ ID } } (depth 2). The shallowest wins
+    whatever the order; guards and allocations follow ITS path (seeded change C09-12 keeps a stale depth after a replacement,
+    so a later in-between field wins in the tables)"""
+    t = INT
+    d3 = E(ST("Archive", [E(ST("Lvl", [E(ST("Pit", [F("ID", t), F("Pitted", STR)]))]))]))
+    d1 = E(ST("Meta", [F("ID", t), F("Tagged", STR)]), shallow_ptr)
+    d2 = E(ST("Audit", [E(ST("Inner", [F("ID", t), F("Stamp", STR)]), mid_ptr)]))
+    by = {1: d1, 2: d2, 3: d3}
+    chain = [by[k] for k in order] + [F("Note", STR)]
+    flat = [F("ID", t), F("Pitted", STR), F("Tagged", STR), F("Stamp", STR), F("Note", STR)]
+    if side == "src":
+        return mk_spec(chain, flat, sname="Record")
+    return mk_spec(flat, chain, sname="Record")
+
+
 WITNESSES = {
     "C05": lambda: [
         ("F_multiMatch", mk_spec([F("ID", INT)], [F("ID", INT), F("Id", INT)])),
@@ -1469,7 +1507,11 @@ def add_companion(rng, spec, file_mode=0.0, disabled=0.5):
     mode = "list"
     if rng.random() < file_mode and spec["sname"] == spec["dname"] and not embed_decls(spec["src"]) and spec["dest"]["kind"] != "new":
         mode = "file"
-    spec["companion"] = {"pairs": pairs, "disabled_embed": rng.random() < disabled, "mode": mode}
+    # the companion comes FIRST in the -type list; called Zcomp the list is not in lexicographic order (seeded change C05-11 sorts
+    # -type but not -to, so the types get each other's destination)
+    unsorted = mode == "list" and rng.random() < 0.5
+    spec["companion"] = {"pairs": pairs, "disabled_embed": rng.random() < disabled, "mode": mode,
+                         "name": "Zcomp" if unsorted else "Comp", "to": unsorted or rng.random() < 0.5}
     return spec
 
 
